@@ -291,6 +291,7 @@ func newC20Server(seed int64, useSMTP bool, jitterOn bool, jsonMode bool) (*c20s
 		s.mails.sends = map[uint64]int{}
 		ab.Config.Core.Mailer = trackedMailer{inner: defaults.NewLogMailer(s.mails), log: s.mails}
 	}
+	ab.Config.Core.Localizer = c20Localizer{}
 	if err := ab.Init("auth", "confirm", "lock", "logout", "oauth2", "otp", "recover", "register", "remember"); err != nil {
 		return nil, err
 	}
@@ -308,8 +309,27 @@ func newC20Server(seed int64, useSMTP bool, jitterOn bool, jsonMode bool) (*c20s
 	// one shared instance of the access middleware in redirect mode (hit concurrently by anonymous clients)
 	mux.Handle("/gate/", authboss.Middleware2(ab, authboss.RequireNone, authboss.RespondRedirect)(probe))
 	h := ab.LoadClientStateMiddleware(remember.Middleware(ab)(authboss.ModuleListMiddleware(ab)(mux)))
+	// the site's language negotiation: the visitor's language travels in the request context
+	inner := h
+	h = http.HandlerFunc(func(w http.ResponseWriter, r *http.Request) {
+		inner.ServeHTTP(w, r.WithContext(context.WithValue(r.Context(), c20LangKey{}, r.Header.Get("Accept-Language"))))
+	})
 	s.srv = httptest.NewServer(h)
 	return s, nil
+}
+
+type c20LangKey struct{}
+
+// c20Localizer: a catalogue with every key in every language; the translation of a text is the text
+// marked with the language of the request it is produced for. No language, no translation.
+type c20Localizer struct{}
+
+func (c20Localizer) Localizef(ctx context.Context, key authboss.LocalizationKey, args ...any) string {
+	lang, _ := ctx.Value(c20LangKey{}).(string)
+	if lang == "" {
+		return ""
+	}
+	return "[" + lang + "] " + fmt.Sprintf(key.Default, args...)
 }
 
 type c20BodyReader struct{ inner *defaults.HTTPBodyReader }
@@ -340,6 +360,7 @@ func (s *c20server) mailText() string {
 
 type c20client struct {
 	id   int
+	lang string // the language this client asks for (Accept-Language); the site's catalogue has all of them
 	pid  string
 	jar  map[string]string
 	hc   *http.Client
@@ -368,6 +389,9 @@ func (c *c20client) do(method, path string, form url.Values) (int, string, http.
 	case form != nil:
 		req.Header.Set("Content-Type", "application/x-www-form-urlencoded")
 	}
+	if c.lang != "" {
+		req.Header.Set("Accept-Language", c.lang)
+	}
 	var ks []string
 	for k := range c.jar {
 		ks = append(ks, k)
@@ -391,6 +415,14 @@ func (c *c20client) do(method, path string, form url.Values) (int, string, http.
 		}
 	}
 	return resp.StatusCode, string(b), resp.Header
+}
+
+// unlang canonicalises the marker of the client's OWN language (every other language's marker stays).
+func (c *c20client) unlang(row string) string {
+	if c.lang == "" {
+		return row
+	}
+	return strings.ReplaceAll(row, "["+c.lang+"] ", "[L] ")
 }
 
 func (c *c20client) step(name, method, path string, form url.Values) (int, string) {
@@ -420,7 +452,7 @@ func (c *c20client) step(name, method, path string, form url.Values) (int, strin
 	if h != nil {
 		loc, ct = h.Get("Location"), h.Get("Content-Type")
 	}
-	c.tr = append(c.tr, fmt.Sprintf("%s: %d loc=%s ct=%s body=%s | session=%s | jar=%v | tokens=%d | row=%s", name, st, loc, ct, body, sess, jk, len(c.srv.store.Tokens(c.pid)), row))
+	c.tr = append(c.tr, c.unlang(fmt.Sprintf("%s: %d loc=%s ct=%s body=%s | session=%s | jar=%v | tokens=%d | row=%s", name, st, loc, ct, body, sess, jk, len(c.srv.store.Tokens(c.pid)), row)))
 	return st, body
 }
 
@@ -457,6 +489,8 @@ func qrMatches(body, email, secret string) bool {
 
 var reMailURL = regexp.MustCompile(`http://site\.test/auth/(confirm\?cnf|recover/end\?token)=([A-Za-z0-9_%=-]+)`)
 
+var reMailSubject = regexp.MustCompile(`(?m)^Subject: (.*)$`)
+
 // waitMail polls the outbox for a mail to this client carrying a link of the wanted kind.
 func (c *c20client) waitMail(kind string, skip int) string {
 	deadline := time.Now().Add(20 * time.Second)
@@ -473,6 +507,9 @@ func (c *c20client) waitMail(kind string, skip int) string {
 				if strings.HasPrefix(m[1], kind) {
 					if n >= skip {
 						tok, _ := url.QueryUnescape(m[2])
+						if sm := reMailSubject.FindStringSubmatch(msg); sm != nil {
+							c.tr = append(c.tr, c.unlang("mail-"+kind+": subject="+strings.TrimSpace(sm[1])))
+						}
 						return tok
 					}
 					n++
@@ -573,7 +610,7 @@ func c20RunClients(seed int64, n int, useSMTP, jitter, jsonMode bool) (*c20serve
 	var cs []*c20client
 	var wg sync.WaitGroup
 	for i := 0; i < n; i++ {
-		c := &c20client{id: i, pid: fmt.Sprintf("client%d@site%d.test", i, i), jar: map[string]string{}, base: srv.srv.URL, srv: srv,
+		c := &c20client{id: i, lang: []string{"fr", "de", "nl"}[i%3], pid: fmt.Sprintf("client%d@site%d.test", i, i), jar: map[string]string{}, base: srv.srv.URL, srv: srv,
 			hc: &http.Client{CheckRedirect: func(*http.Request, []*http.Request) error { return http.ErrUseLastResponse }, Timeout: 30 * time.Second}}
 		cs = append(cs, c)
 		wg.Add(1)
@@ -959,7 +996,7 @@ func c20Unit(c *RunCtx, unit int) {
 			defer wg.Done()
 			for i := 0; i < 150; i++ {
 				prog := c11gen(gr)
-				l, gets, pan := c11run(prog, c11state{"uid": "u"}, c11state{"rm": "c"}, false, false)
+				l, gets, pan := c11run(prog, c11state{"uid": "u"}, c11state{"rm": "c"}, false, false, false)
 				if sig, msg := c11check(prog, l, gets, c11state{"uid": "u"}, c11state{"rm": "c"}, pan, false, false); sig != "" {
 					select {
 					case bad <- sig + ": " + msg:
@@ -1026,7 +1063,7 @@ func C20RaceReports(scratch string) (lib []string, harnessOnly int, total int) {
 func init() {
 	register(&Check{
 		ID: "C20", Level: "exploration",
-		Rule:  "-race build. One initialised instance behind a real net/http server on loopback, shipped defaults everywhere (router, body reader, responder, redirector, error handler, defaults.Logger on a locked writer, defaults.LogMailer on a locked writer in even units and defaults.SMTPMailer talking to an in-process fake SMTP server in odd units), MailNoGoroutine=false so the library's own mail goroutines run. 4/16/48 clients, each with its own account and cookie jar, run the script register → login-unconfirmed → confirm (token read from the mail) → wrong login → login(rm) → protected → TOTP setup + 4x QR image (pixels must encode this session's own secret) → otp add → logout → otp login → otp replay → logout → recover start → recover end (token from the mail) → old password → new password(rm) → remember re-auth → protected → logout → protected, concurrently (form mode in half of the units, JSON/API mode — JSON bodies in, JSON 'redirects' out — in the other half), with seeded yields/µs-sleeps injected at every storer and session-store operation and at SMTP accept. Oracles: (1) zero race-detector reports with a frame in github.com/volatiletech/authboss/v3 (GORACE halt_on_error=0 log_path, blocks counted from the logs, deduplicated by the innermost library frame pair); a report without a library frame makes the run inconclusive; (2) every client's transcript (status, Location, content type, body, its server-side session, jar keys, its token-row count, its own storage row after every step; identifiers/tokens/hashes/timestamps canonicalised) equals the transcript of the same script run alone against a fresh instance; (3) 8 anonymous clients x 120 requests refused concurrently by ONE redirect-mode access middleware must each be sent to the login page with their own path and query; (4) the C11 handler programs run in 8 goroutines concurrently; (5) 8 cookie-only browsers rotate their remember cookies 60 (thorough: 400) times each at once: every cookie names its own account, every nonce is handed out once; (6) the library logs no error under concurrency that it does not log when the script runs alone; (7) in the LogMailer's output the writes of each Mailer.Send call are contiguous (two users' messages never mix). distinct_nontrivial = distinct interleaving signatures (hash of the global order of storer operations by account).",
+		Rule:  "-race build. One initialised instance behind a real net/http server on loopback, shipped defaults everywhere (router, body reader, responder, redirector, error handler, defaults.Logger on a locked writer, defaults.LogMailer on a locked writer in even units and defaults.SMTPMailer talking to an in-process fake SMTP server in odd units), MailNoGoroutine=false so the library's own mail goroutines run. A Localizer that translates every text into the language the request asks for (Accept-Language → request context; three languages spread over the clients; the marker of a client's own language is canonicalised, any other language's marker is a difference); the subject of every mail a client waits for is part of its transcript. 4/16/48 clients, each with its own account and cookie jar, run the script register → login-unconfirmed → confirm (token read from the mail) → wrong login → login(rm) → protected → TOTP setup + 4x QR image (pixels must encode this session's own secret) → otp add → logout → otp login → otp replay → logout → recover start → recover end (token from the mail) → old password → new password(rm) → remember re-auth → protected → logout → protected, concurrently (form mode in half of the units, JSON/API mode — JSON bodies in, JSON 'redirects' out — in the other half), with seeded yields/µs-sleeps injected at every storer and session-store operation and at SMTP accept. Oracles: (1) zero race-detector reports with a frame in github.com/volatiletech/authboss/v3 (GORACE halt_on_error=0 log_path, blocks counted from the logs, deduplicated by the innermost library frame pair); a report without a library frame makes the run inconclusive; (2) every client's transcript (status, Location, content type, body, its server-side session, jar keys, its token-row count, its own storage row after every step; identifiers/tokens/hashes/timestamps canonicalised) equals the transcript of the same script run alone against a fresh instance; (3) 8 anonymous clients x 120 requests refused concurrently by ONE redirect-mode access middleware must each be sent to the login page with their own path and query; (4) the C11 handler programs run in 8 goroutines concurrently; (5) 8 cookie-only browsers rotate their remember cookies 60 (thorough: 400) times each at once: every cookie names its own account, every nonce is handed out once; (6) the library logs no error under concurrency that it does not log when the script runs alone; (7) in the LogMailer's output the writes of each Mailer.Send call are contiguous (two users' messages never mix). distinct_nontrivial = distinct interleaving signatures (hash of the global order of storer operations by account).",
 		Units: func(t string) int { return tierN(t, 12, 120) },
 		Run:   c20Unit,
 		Floors: func(t string) map[string]int {
